@@ -3,3 +3,6 @@ import GtirbModel.TypeName
 import GtirbModel.Codec
 import GtirbModel.CodecTyping
 import GtirbModel.CodecDriver
+import GtirbModel.Cfg
+import GtirbModel.Expected
+import GtirbModel.Interval
